@@ -266,10 +266,51 @@ def _c19_callee(call):
     return f.attr if isinstance(f, ast.Attribute) else (f.id if isinstance(f, ast.Name) else ast.unparse(f))
 
 
+def _c19_names(fn):
+    """(parameter names, names bound inside the function) — nested defs / classes / lambdas excluded"""
+    a = fn.args
+    params = {x.arg for x in a.posonlyargs + a.args + a.kwonlyargs}
+    if a.vararg:
+        params.add(a.vararg.arg)
+    if a.kwarg:
+        params.add(a.kwarg.arg)
+    bound = set()
+
+    def walk(node):
+        for ch in ast.iter_child_nodes(node):
+            if isinstance(ch, (ast.FunctionDef, ast.AsyncFunctionDef, ast.ClassDef, ast.Lambda)):
+                continue
+            if isinstance(ch, ast.Name) and isinstance(ch.ctx, ast.Store):
+                bound.add(ch.id)
+            walk(ch)
+    walk(fn)
+    return params, bound - params
+
+
+def _c19_text(node, params, bound):
+    """source text of an expression with every variable replaced by what it is: `<param>` (supplied by the caller
+    of the function) or `<local>` (bound inside it); globals, attributes and keywords stay.  Renaming a local or
+    a parameter therefore does not change the table."""
+    import copy
+
+    class T(ast.NodeTransformer):
+        def visit_Name(self, n):
+            if n.id in params:
+                return ast.copy_location(ast.Name(id="<param>", ctx=n.ctx), n)
+            if n.id in bound:
+                return ast.copy_location(ast.Name(id="<local>", ctx=n.ctx), n)
+            return n
+    return ast.unparse(T().visit(copy.deepcopy(node)))
+
+
 def _c19_scan(fn):
     """(points, bare_opens, for_calls, close_calls) of one function body; nested defs/classes/lambdas skipped.
     points: (what, [context expressions of the enclosing `with` items, outermost first])"""
     points, bare, fors, closes = [], [], [], []
+    params, bound = _c19_names(fn)
+
+    def txt(node):
+        return _c19_text(node, params, bound)
 
     def expr(node, ctx, in_item):
         # walk an expression tree in source order
@@ -277,17 +318,17 @@ def _c19_scan(fn):
             return
         if isinstance(node, ast.YieldFrom):
             v = node.value
-            points.append(["yield from " + (ast.unparse(v.func) if isinstance(v, ast.Call) else ast.unparse(v)), list(ctx)])
+            points.append(["yield from " + (txt(v.func) if isinstance(v, ast.Call) else txt(v)), list(ctx)])
         elif isinstance(node, ast.Yield):
             points.append(["yield", list(ctx)])
         elif isinstance(node, ast.Call):
             name = _c19_callee(node)
             if name in _C19_OPENERS and not in_item:
-                bare.append(ast.unparse(node))
+                bare.append(txt(node))
             if name == "close" and isinstance(node.func, ast.Attribute):
-                closes.append(ast.unparse(node))
+                closes.append(txt(node))
             if name in _C19_WRITE_CALLS:
-                points.append(["call " + ast.unparse(node.func), list(ctx)])
+                points.append(["call " + txt(node.func), list(ctx)])
         for ch in ast.iter_child_nodes(node):
             expr(ch, ctx, in_item)
 
@@ -299,11 +340,11 @@ def _c19_scan(fn):
                 inner = list(ctx)
                 for it in st.items:
                     expr(it.context_expr, inner, True)
-                    inner = inner + [ast.unparse(it.context_expr)]
+                    inner = inner + [txt(it.context_expr)]
                 stmts(st.body, inner)
             elif isinstance(st, (ast.For, ast.AsyncFor)):
                 if isinstance(st.iter, ast.Call):
-                    fors.append(ast.unparse(st.iter.func))
+                    fors.append(txt(st.iter.func))
                 expr(st.iter, ctx, False)
                 stmts(st.body, ctx)
                 stmts(st.orelse, ctx)
